@@ -50,17 +50,22 @@ static const int unknown_req[]={0,1,2,3,-1,-4000,7777,20000,99999,3999,4100,4101
 
 static void mode_ctl(void){
   vc_rng r; vc_case_rng(&r,11); int err; int Fs=VC_PICK(&r,vk_rates), ch=1+vc_below(&r,2), app=VC_PICK(&r,vk_apps); OpusEncoder *e=opus_encoder_create(Fs,ch,app,&err); if(!e){ vc_viol("create:legal-rejected","encoder %d/%d/%d: %d",Fs,ch,app,err); return; }
-  vc_siggen g; vs_init(&g,vc_below(&r,VS_NFINITE),Fs,ch,0.5f,vc_next(&r)); static float in[5760*2]; unsigned char pk[1500]; int encoded=0; char last[80]="";
+  vc_siggen g; vs_init(&g,vc_below(&r,VS_NFINITE),Fs,ch,0.5f,vc_next(&r)); static float in[5760*2]; unsigned char pk[1500]; int encoded=0; char last[80]=""; int bitrate_explicit=0;
   for(int step=0;step<120;step++){
     int k=vc_below(&r,20);
-    if(k<2){ int fs=vk_frame_samples(Fs,vc_below(&r,9)); vs_fill(&g,in,fs); opus_encode_float(e,in,fs,pk,1500); encoded++; continue; }
     esnap before,after; enc_snap(e,&before);
+    if(k<2){ /* an encode call is not a control request: every setting's getter must still report what it reported before the call (the
+         getter of an AUTO/MAX bitrate follows the frame size and OPUS_GET_BANDWIDTH reports the bandwidth in use: finding F13) */
+      int fs=vk_frame_samples(Fs,vc_below(&r,9)); vs_fill(&g,in,fs); int el=opus_encode_float(e,in,fs,pk,vc_chance(&r,1,4)?vc_range(&r,2,60):1500); encoded++; enc_snap(e,&after); vc_count("ctl_encode_calls_between_sets",1);
+      for(int i=0;i<R_N;i++){ if(i==R_BANDWIDTH) continue; if(i==R_BITRATE&&!bitrate_explicit) continue; if(after.v[i]!=before.v[i]){ vc_viol("ctl:encode-changed-setting","an encode call (%d samples at %d Hz, %d ch, returned %d) changed OPUS_GET_%s from %d to %d (last set: %s)",fs,Fs,ch,el,rq[i].name,before.v[i],after.v[i],last); break; } }
+      if(after.fs!=before.fs||after.la!=before.la) vc_viol("ctl:encode-changed-setting","an encode call changed the sample rate or lookahead query"); continue; }
     if(k==2){ int q=VC_PICK(&r,unknown_req); int rc=opus_encoder_ctl(e,q,0); enc_snap(e,&after); if(rc!=OPUS_UNIMPLEMENTED) vc_viol("ctl:unknown-request","encoder request %d returned %d, expected OPUS_UNIMPLEMENTED",q,rc); else vc_count("ctl_unknown_refused",1); int d=snap_diff(&before,&after); if(d) vc_viol("ctl:rejected-changed-state","unknown request %d changed getter %s",q,d<=R_N?rq[d-1].name:"rate/lookahead"); continue; }
     if(k==3){ int rr=vc_below(&r,R_N); int rc=opus_encoder_ctl(e,rq[rr].get,(opus_int32*)NULL); enc_snap(e,&after); if(rc!=OPUS_BAD_ARG) vc_viol("ctl:null-accepted","OPUS_GET_%s(NULL) returned %d",rq[rr].name,rc); else vc_count("ctl_null_refused",1); if(snap_diff(&before,&after)) vc_viol("ctl:rejected-changed-state","NULL getter changed state"); continue; }
     int rr=vc_below(&r,R_N); int v=grid_value(&r,rr,ch); int rc=opus_encoder_ctl(e,rq[rr].set,v); enc_snap(e,&after); vc_count("ctl_sets",1); snprintf(last,sizeof last,"OPUS_SET_%s(%d)=%d",rq[rr].name,v,rc);
     int lg=legal(rr,v,ch);
     if(rr==R_APPLICATION&&lg&&encoded&&v!=before.v[R_APPLICATION]){ /* changing the application after the first frame may be refused; if so nothing may change */ if(rc!=OPUS_OK){ if(snap_diff(&before,&after)) vc_viol("ctl:rejected-changed-state","%s changed state",last); continue; } }
     if(lg){ if(rc!=OPUS_OK){ vc_viol("ctl:legal-rejected","%s on a %d Hz %d-channel encoder (application %d)",last,Fs,ch,app); continue; }
+      if(rr==R_BITRATE) bitrate_explicit=(v>0);
       if(!getter_ok(rr,v,after.v[rr],Fs,ch)){ vc_viol(rr==R_BANDWIDTH?"ctl:getter-mismatch:BANDWIDTH":"ctl:getter-mismatch","%s then OPUS_GET_%s reports %d (Fs=%d ch=%d, %d frames encoded before)",last,rq[rr].name,after.v[rr],Fs,ch,encoded); }
       else vc_count("ctl_legal_readback_ok",1);
       /* a legal set changes its own setting only */
